@@ -7,6 +7,8 @@ import (
 	"bytes"
 	"fmt"
 	"io"
+	"runtime"
+	"sync"
 
 	"github.com/WICG/webpackage/go/signedexchange/mice"
 	"github.com/WICG/webpackage/go/zz_verif/mon"
@@ -204,6 +206,48 @@ func run(r *mon.Run) {
 				one(r, d, g.Bytes(l), rs, "boundary", schedules[:2], 7)
 			}
 		}
+	}
+	// several goroutines encode and decode different payloads with different record sizes at the same time
+	{
+		var wg sync.WaitGroup
+		var mu sync.Mutex
+		for gi := 0; gi < 8; gi++ {
+			wg.Add(1)
+			go func(gi int) {
+				defer wg.Done()
+				g := r.Rand("concurrent", gi+100*r.Shard)
+				for k := 0; k < 150; k++ {
+					d := drafts[(gi+k)%2]
+					rs := 1 + g.Intn(60)
+					payload := g.Bytes(g.Intn(4*rs + 2))
+					var buf bytes.Buffer
+					digest, err := d.enc.Encode(&buf, payload, rs)
+					wantStream, wantDigest := rmice.Encode(d.ref, payload, rs)
+					problem := ""
+					if err != nil || digest != wantDigest || !bytes.Equal(buf.Bytes(), wantStream) {
+						problem = fmt.Sprintf("encode differs from the reference (err=%v)", err)
+					} else if dec, derr := d.enc.NewDecoder(&chunkReader{b: buf.Bytes(), chunk: 3}, digest, 16384); derr != nil {
+						problem = "NewDecoder: " + derr.Error()
+					} else {
+						runtime.Gosched()
+						out, rerr := io.ReadAll(dec)
+						if rerr != nil || !bytes.Equal(out, payload) {
+							problem = fmt.Sprintf("decode gives %d bytes (err=%v), payload has %d", len(out), rerr, len(payload))
+						}
+					}
+					mu.Lock()
+					if problem != "" {
+						r.Eval("CONCURRENT-MISMATCH")
+						r.Violation(fmt.Sprintf("mi:concurrent:%s:rs%d:len%d", d.enc, rs, len(payload)), fmt.Sprintf("%s rs=%d len=%d processed while other goroutines process other payloads: %s", d.enc, rs, len(payload), problem), nil)
+					} else {
+						r.Eval("concurrent-ok")
+					}
+					mu.Unlock()
+				}
+			}(gi)
+		}
+		wg.Wait()
+		r.Distinct("concurrent")
 	}
 	nRand := 300
 	lmax := 64 << 10
